@@ -11,6 +11,7 @@
 #include <cstdint>
 #include <limits> // std::numeric_limits
 #include <memory>
+#include <string>
 #include <system_error>
 #include <utility> // std::move
 #include <vector>
@@ -26,6 +27,7 @@
 #include <jsoncons/sink.hpp>
 #include <jsoncons/utility/binary.hpp>
 #include <jsoncons/utility/unicode_traits.hpp>
+#include <jsoncons/utility/write_number.hpp>
 
 #include <jsoncons_ext/ubjson/ubjson_error.hpp>
 #include <jsoncons_ext/ubjson/ubjson_options.hpp>
@@ -456,9 +458,17 @@ private:
 
     JSONCONS_VISITOR_RETURN_TYPE visit_uint64(uint64_t val, 
                       semantic_tag, 
-                      const ser_context&,
-                      std::error_code&) final
+                      const ser_context& context,
+                      std::error_code& ec) final
     {
+        if (val > static_cast<uint64_t>((std::numeric_limits<int64_t>::max)()))
+        {
+            // UBJSON has no unsigned 64 bit type: write the value as a high-precision number
+            std::string s;
+            jsoncons::from_integer(val, s);
+            visit_string(s, semantic_tag::bigint, context, ec);
+            JSONCONS_VISITOR_RETURN;
+        }
         if (val <= (std::numeric_limits<uint8_t>::max)())
         {
             sink_.push_back(jsoncons::ubjson::ubjson_type::uint8_type);
